@@ -39,6 +39,9 @@ def fixtures():
     import ECAgent.Tags as tags
     if _K is None:
         _K = [type(f'T{i}', (core.Component,), {'__slots__': ()}) for i in range(5)]
+        # a container-like component (an empty inventory has len 0) and a switch that is off: falsy objects are components too
+        _K[1] = type('T1Inventory', (core.Component,), {'__slots__': (), '__len__': lambda self: 0})
+        _K[3] = type('T3Switch', (core.Component,), {'__slots__': (), '__bool__': lambda self: False})
         for n in ('C13_PREY', 'C13_PREDATOR'):
             try:
                 tags.add_tag(n)
